@@ -45,6 +45,25 @@ fn p_cbox_plain_payload() {
     drop(sb);
     kani::cover!(true, "end");
 }
+struct Pbig([u64; 24]);
+#[repr(align(64))]
+struct Pal { v: u32, heap: Box<u8> }
+impl Drop for Pal { fn drop(&mut self) { unsafe { DROPS += 1 } } }
+fn cbox_class<T: Send>(mk: fn() -> T, counted: bool) {
+    let route: u8 = kani::any();
+    kani::assume(route < 3);
+    let b: CBox<T> = if kani::any() { CBox::from(mk()) } else { CBox::from(Box::new(mk())) };
+    assert!(b.drop_fn.is_some(), "C06 every box carries its release function (any payload class)");
+    match route {
+        0 => drop(b),
+        1 => drop(b.into_opaque()),
+        _ => { let v = unsafe { b.into_inner() }; assert!(drops() == 0, "C06 into_inner moves the value out without dropping (any payload class)"); drop(v); }
+    }
+    assert!(drops() == counted as u32, "C06 value destroyed exactly once (any payload class)");
+}
+#[kani::proof] fn p_cbox_class_zst_drop() { cbox_class::<Zd>(|| Zd, true); kani::cover!(true, "end"); }
+#[kani::proof] fn p_cbox_class_big() { cbox_class::<Pbig>(|| Pbig([1; 24]), false); kani::cover!(true, "end"); }
+#[kani::proof] fn p_cbox_class_aligned() { cbox_class::<Pal>(|| Pal { v: 1, heap: Box::new(1) }, true); kani::cover!(true, "end"); }
 #[kani::proof]
 fn p_cbox_zst() {
     let b = CBox::from(Zd);
